@@ -2,6 +2,7 @@ import Aergo.Model.DriverLib
 import Aergo.Model.Frame
 import Aergo.Model.Handshake
 import Aergo.Model.BlockId
+import Aergo.Model.Notice
 
 /-! Model driver for C18: `model-c18 < ops > out`.
 
@@ -11,6 +12,13 @@ read   <max> <stream>
 readall <max> <stream>
 hs <200|33> <lver> <lpub> <lmain> <lmagic> <lcons> <lpeer> <lgen> <cid> <height> <besthash> <genesis>
       nosender | sender <addrOK> <peer> <role> <P> <p1..pP> <C> (<valid> <agent> <bp>)*C
+hsw <in|out> <magicOK> <A> <accepted codes> <M> <made: 200|33|32|31> <K> <offered/answered codes> <status|other kind>
+      <lgver> <lver> <lpub> <lmain> <lmagic> <lcons> <lpeer> <lgen> <cid> <height> <besthash> <genesis>
+      nosender | sender <addrOK> <legacyAddrOK> <peer> <role> <P> <p1..pP> <C> (<valid> <agent> <bp>)*C
+sm new <cap>
+sm bp <id> <present> <lenOK> <senderOK> <sizeOK>
+sm nb <id> <lenOK> <peerSeen> <chainHas>
+sm gbr <statusOK> <N> (<id> <sizeOK>)*N
 bhash <carried> <digest>
 recv <maxBlock> <R> <r1..rR> <K> ( <isBlk> <statusOK> <hasNext> <N> (<hash> <size>)*N )*K
 ```
@@ -122,6 +130,114 @@ def doHs : List String → String
     | _, _, _, _, _, _, _, _, _, _, _, _ => "bad-op"
   | _ => "bad-op"
 
+
+/-- take `n` decimal words -/
+def takeNats : Nat → List String → Option (List Nat × List String)
+  | 0, ws => some ([], ws)
+  | n + 1, w :: ws => do
+    let x ← w.toNat?
+    let (xs, rest) ← takeNats n ws
+    pure (x :: xs, rest)
+  | _ + 1, [] => none
+
+open Aergo.Handshake in
+def verOfNo : Nat → Option Ver
+  | 200 => some .v200 | 33 => some .v033 | 32 => some .v032 | 31 => some .v031 | _ => none
+
+open Aergo.Handshake in
+def noOfCode (c : Nat) : Nat :=
+  match verOfCode c with
+  | some .v200 => 200 | some .v033 => 33 | some .v032 => 32 | some .v031 => 31 | none => 0
+
+open Aergo.Handshake in
+def doHsw : List String → String
+  | dir :: magic :: a :: rest =>
+    match parseBool magic, a.toNat? with
+    | some magic, some a =>
+      match takeNats a rest with
+      | some (accepted, m :: rest) =>
+        match m.toNat? with
+        | some m =>
+          match takeNats m rest with
+          | some (madeNos, k :: rest) =>
+            match k.toNat?, madeNos.mapM verOfNo with
+            | some k, some made =>
+              match takeNats k rest with
+              | some (offered, kind :: lgver :: lver :: lpub :: lmain :: lmagic :: lcons :: lpeer :: lgen :: cid :: height :: bhash :: gen :: srest) =>
+                let snd : Option (Option Sender × List Cert × Bool) :=
+                  match srest with
+                  | ["nosender"] => some (none, [], false)
+                  | "sender" :: ok :: leg :: more =>
+                    match parseBool leg, parseSender ("sender" :: ok :: more) with
+                    | some leg, some (s, cs) => some (s, cs, leg)
+                    | _, _ => none
+                  | _ => none
+                match lgver.toNat?, lver.toNat?, parseBool lpub, parseBool lmain, unhex lmagic, unhex lcons, unhex lpeer, unhex lgen,
+                    unhex cid, height.toNat?, unhex bhash, unhex gen, snd with
+                | some lgver, some lver, some lpub, some lmain, some lmagic, some lcons, some lpeer, some lgen,
+                    some cid, some height, some bhash, some gen, some (sender, certs, leg) =>
+                  let l : Local := ⟨fun _ => ⟨lver, lpub, lmain, lmagic, lcons⟩, lpeer, lgen⟩
+                  let w : WireLocal := ⟨accepted, made, ⟨lgver, lpub, lmain, lmagic, lcons⟩, l⟩
+                  let msg : PeerMsg := ⟨kind == "status", leg, ⟨cid, height, bhash, sender, gen, certs⟩⟩
+                  let r : Option (Nat × Bool) :=
+                    if dir == "in" then some (wireInbound w magic offered msg)
+                    else if dir == "out" then
+                      match offered with
+                      | [c] => some (wireOutbound w magic c msg)
+                      | _ => none
+                    else none
+                  match r with
+                  | some (c, ok) => s!"v={noOfCode c} {if ok then "ok" else "reject"}"
+                  | none => "bad-op"
+                | _, _, _, _, _, _, _, _, _, _, _, _, _ => "bad-op"
+              | _ => "bad-op"
+            | _, _ => "bad-op"
+          | _ => "bad-op"
+        | none => "bad-op"
+      | _ => "bad-op"
+    | _, _ => "bad-op"
+  | _ => "bad-op"
+
+open Aergo.Notice in
+def takeIdFlags : Nat → List String → Option (List (List UInt8 × Bool) × List String)
+  | 0, ws => some ([], ws)
+  | n + 1, h :: f :: ws => do
+    let h ← unhex h
+    let f ← parseBool f
+    let (xs, rest) ← takeIdFlags n ws
+    pure ((h, f) :: xs, rest)
+  | _ + 1, _ => none
+
+open Aergo.Notice in
+def showAct : Act → String
+  | .nothing => "nothing"
+  | .forward id => s!"forward {hex id}"
+  | .request id => s!"request {hex id}"
+
+open Aergo.Notice in
+def parseArr : List String → Option Arr
+  | ["bp", id, p, l, s, z] => do
+    pure (.bp (← unhex id) (← parseBool p) (← parseBool l) (← parseBool s) (← parseBool z))
+  | ["nb", id, l, p, c] => do
+    pure (.nb (← unhex id) (← parseBool l) (← parseBool p) (← parseBool c))
+  | "gbr" :: ok :: n :: rest => do
+    let ok ← parseBool ok
+    let n ← n.toNat?
+    let (bs, rest) ← takeIdFlags n rest
+    if rest.isEmpty then pure (.gbr ok bs) else none
+  | _ => none
+
+open Aergo.Notice in
+def doSm (s : Seen) : List String → Seen × String
+  | ["new", cap] =>
+    match cap.toNat? with
+    | some cap => (⟨cap, []⟩, "ok")
+    | none => (s, "bad-op")
+  | ws =>
+    match parseArr ws with
+    | some a => let (s', x) := step s a; (s', showAct x)
+    | none => (s, "bad-op")
+
 open Aergo.BlockId in
 def doBhash : List String → String
   | [c, d] =>
@@ -181,16 +297,18 @@ def doRecv : List String → String
     | _, _ => "bad-op"
   | _ => "bad-op"
 
-def step (line : String) : String :=
+def step (s : Aergo.Notice.Seen) (line : String) : Aergo.Notice.Seen × String :=
   match words line with
-  | "write" :: a => doWrite a
-  | "read" :: a => doRead a
-  | "readall" :: a => doReadAll a
-  | "hs" :: a => doHs a
-  | "bhash" :: a => doBhash a
-  | "recv" :: a => doRecv a
-  | _ => "bad-op"
+  | "write" :: a => (s, doWrite a)
+  | "read" :: a => (s, doRead a)
+  | "readall" :: a => (s, doReadAll a)
+  | "hs" :: a => (s, doHs a)
+  | "hsw" :: a => (s, doHsw a)
+  | "sm" :: a => doSm s a
+  | "bhash" :: a => (s, doBhash a)
+  | "recv" :: a => (s, doRecv a)
+  | _ => (s, "bad-op")
 
 end C18Drv
 
-def main : IO UInt32 := runPure C18Drv.step
+def main : IO UInt32 := run (⟨0, []⟩ : Aergo.Notice.Seen) C18Drv.step
